@@ -2,7 +2,7 @@
    the calls of Prog.v plus broadcasting, reordering, editing, joining, splitting, sorting, lane operations,
    elementwise lifting and the structured constructors.  Every call takes its array operands from the environment
    of earlier results (by index) and appends every array it returns. *)
-From ArrRs Require Import Index Axis Prog Broadcast Lift Split Reduce Sort Join Reorder Edit Create.
+From ArrRs Require Import Index Axis Prog Broadcast Lift Split Reduce Sort Join Reorder Edit Create Linalg.
 
 Section ProgFull.
 Context {T : Type} (dflt zero one : T) (is_zero : T -> bool) (ltb eqb : T -> T -> bool).
@@ -24,7 +24,13 @@ Inductive fcall :=
 | FReduce (g1 : list T -> res T) (i : nat) (axis : option Z) | FScan (g : list T -> list T) (i : nat) (axis : option Z)
 | FMap (f : T -> T) (i : nat) | FLift2 (f : T -> T -> T) (i j : nat) | FZipop (f : T -> T -> T) (i j : nat)
 | FTril (i : nat) (k : Z) | FTriu (i : nat) (k : Z) | FDiag (i : nat) (k : Z) | FDiagflat (i : nat) (k : Z)
-| FEye (n m k : nat) | FTri (n m : nat) (k : Z) | FIdentity (n : nat) | FFull (sh : list nat) (v : T).
+| FEye (n m k : nat) | FTri (n m : nat) (k : Z) | FIdentity (n : nat) | FFull (sh : list nat) (v : T)
+(* products, for any addition and multiplication on the elements *)
+| FVdot (add mul : T -> T -> T) (i j : nat) | FMatmul (add mul : T -> T -> T) (strict : bool) (i j : nat)
+| FOuter (mul : T -> T -> T) (i j : nat) | FInner (add mul : T -> T -> T) (i j : nat)
+| FDot (add mul : T -> T -> T) (strict : bool) (i j : nat)
+(* broadcasting of a pair, kept as its two stretched operands *)
+| FBroadcastArrays (is : list nat).
 
 Definition operands (env : list (arr T)) (is : list nat) : res (list (arr T)) := mapM (operand env) is.
 
@@ -70,6 +76,12 @@ Definition run_fcall (env : list (arr T)) (c : fcall) : res (list (arr T)) :=
   | FDiag i k => on i (fun a => diag zero a k) | FDiagflat i k => on i (fun a => diagflat zero a k)
   | FEye n m k => ret1 (eye zero one n m k) | FTri n m k => ret1 (tri zero one n m k)
   | FIdentity n => ret1 (identity zero one n) | FFull sh v => ret1 (full sh v)
+  | FVdot add mul i j => on2 i j (vdot zero add mul)
+  | FMatmul add mul strict i j => on2 i j (matmul zero add mul strict)
+  | FOuter mul i j => on2 i j (outer mul)
+  | FInner add mul i j => on2 i j (inner zero add mul)
+  | FDot add mul strict i j => on2 i j (dot zero add mul strict)
+  | FBroadcastArrays is => let* l := operands env is in broadcast_arrays dflt l
   end.
 
 Definition fstep (env : list (arr T)) (c : fcall) : list (arr T) :=
